@@ -286,8 +286,8 @@ int accept(ACCEPTPARAMS) {
   }
 
   int sock = fibershim_accept(sockfd, addr, addrlen);
-  if (sock < 0 && (errno == EWOULDBLOCK || errno == EAGAIN) &&
-      should_block(sockfd)) {
+  while (sock < 0 && (errno == EWOULDBLOCK || errno == EAGAIN) &&
+         should_block(sockfd)) {
     if (!fiber_wait_for_event(sockfd, FIBER_POLL_IN)) {
       return -1;
     }
@@ -295,7 +295,7 @@ int accept(ACCEPTPARAMS) {
     sock = fibershim_accept(sockfd, addr, addrlen);
   }
 
-  if (sock > 0) {
+  if (sock >= 0) {
     if (setup_socket(sock) < 0) {
       close(sock);
       return -1;
